@@ -287,12 +287,15 @@ def shared_nodes(orig, new):
 MUT_BAG_KEY = "pipeline.signal_transfer.mut.arguments.bag"
 
 
-def gen_case(rng, mode=None, sweep_bag=None):
+def gen_case(rng, mode=None, sweep_bag=None, seeded=None):
     case = c05.gen_case(rng, mode=mode, flavour=rng.choice(["plain", "fine", "vectors", "two_models_same_arg"]), max_runs=8)
     case["memory_seen"] = rng.choice([0, 0, 3, 7])          # what the caller's detector already remembers
     case["stateful"] = rng.sample(["memory", "mutate"], rng.choice([1, 2]))
     case["bag"] = [rng.randrange(9) for _ in range(rng.choice([0, 2, 3]))]
     case["fail_value"] = None
+    # seeded-stochastic pipeline: a probe that draws several times from the process-wide generator, with a pause between
+    # the draws; every run (and the standalone exposure) is seeded with the same pipeline seed
+    case["pipeline_seed"] = rng.randrange(1, 10000) if (seeded or (seeded is None and rng.random() < 0.3)) else None
     if sweep_bag is None:
         sweep_bag = case["mode"] != "custom" and rng.random() < 0.35
     if sweep_bag and case["mode"] != "custom":
@@ -322,6 +325,9 @@ def extra_models(case):
         else:
             ms.append({"name": "mut", "func": "obsprobes.mutate",
                        "arguments": {"slot": s, "bag": list(case["bag"]), "table": {"touched": 0, "k": [1, 2]}}})
+        s += 1
+    if case.get("pipeline_seed") is not None:
+        ms.append({"name": "rnd", "func": "obsprobes.draw", "arguments": {"slot": s, "n": 3, "delay_ms": 2.0}})
         s += 1
     if case.get("fail_key"):
         ms.append({"name": "boom", "func": "obsprobes.fail_if",
@@ -488,7 +494,7 @@ def standalone(case, assignment, n_extra):
         if k.startswith("detector."):
             parts = k.split(".")[1:]
             setattr(operator.attrgetter(".".join(parts[:-1]))(det), parts[-1], v)
-    dt = pyxel.run_mode(mode=pyx.make_exposure(), detector=det, pipeline=pipe)
+    dt = pyxel.run_mode(mode=pyx.make_exposure(pipeline_seed=case.get("pipeline_seed")), detector=det, pipeline=pipe)
     ds = c05.find_bucket(dt)
     data = ds["pixel"].values.reshape(ds["pixel"].shape[0], -1)[0]
     return [c05.num(x) for x in data[:c05.nslots(case) + n_extra]]
@@ -504,7 +510,8 @@ def run_observation(case, det, pipe, n_extra, parallel, obs=None):
     try:
         os.chdir(tmp)
         obsprobes.reset()
-        obs = obs if obs is not None else c05.build_observation(case, tmp, with_dask=parallel)
+        obs = obs if obs is not None else c05.build_observation(case, tmp, with_dask=parallel,
+                                                                 pipeline_seed=case.get("pipeline_seed"))
         try:
             with dask.config.set(scheduler="threads" if parallel else "synchronous", num_workers=4):
                 dt = pyxel.run_mode(mode=obs, detector=det, pipeline=pipe, with_inherited_coords=True)
@@ -558,7 +565,8 @@ def check_runs(ck, case, rng, parallel):
                 # taken after the first call returned would miss its effect: rebuild an identical, unused Observation
                 tmpd = tempfile.mkdtemp(prefix="verif-c06-obs-")
                 try:
-                    mode_before = snapshot(**mode_settings(c05.build_observation(case, tmpd, with_dask=parallel)))
+                    mode_before = snapshot(**mode_settings(c05.build_observation(
+                        case, tmpd, with_dask=parallel, pipeline_seed=case.get("pipeline_seed"))))
                 finally:
                     shutil.rmtree(tmpd, ignore_errors=True)
             mode_after = snapshot(**mode_settings(obs0))
@@ -594,24 +602,32 @@ def check_runs(ck, case, rng, parallel):
             return
 
 
-def check_readout_sweep(ck, rng, parallel):
-    """sweeps over `observation.readout.*`: the Readout the user passed must keep its settings (only that clause is
-    judged: what such a sweep computes is outside C05's quantifier)"""
+def check_readout_sweep(ck, rng, parallel, case=None):
+    """sweeps over `observation.readout.*`: the Readout the user passed must keep its settings; and on the dask path a
+    sweep of the readout TIME (one readout per run, start time ≠ 0, a probe reporting time and time step) must give, for
+    every combination, the data of the standalone exposure read out at that time (the non-dask path ignores swept
+    readout times: outside C05's quantifier, only the caller-object clause is judged there)"""
     import dask
+    import numpy as np
     import pyx
     import pyxel
-    from pyxel.exposure import Readout
+    from pyxel.exposure import Exposure, Readout
     from pyxel.observation import Observation, ParameterValues
 
-    key, values = rng.choice([("observation.readout.times", [2.0, 5.0]), ("observation.readout.times", [4.0, 6.5, 9.0]),
-                              ("observation.readout.non_destructive", [True, False]),
-                              ("observation.readout.non_destructive", [False, True])])
-    mode = rng.choice(["product", "sequential"])
-    nd = rng.random() < 0.5
-    case = {"key": key, "values": values, "mode": mode, "non_destructive": nd}
+    if case is None:
+        key, values = rng.choice([("observation.readout.times", [2.0, 5.0]), ("observation.readout.times", [4.0, 6.5, 9.0]),
+                                  ("observation.readout.non_destructive", [True, False]),
+                                  ("observation.readout.non_destructive", [False, True])])
+        if parallel and rng.random() < 0.6:
+            key, values = "observation.readout.times", rng.choice([[2.0, 5.0], [4.0, 6.5, 9.0]])
+        case = {"key": key, "values": values, "mode": rng.choice(["product", "product", "sequential"]),
+                "non_destructive": rng.random() < 0.5, "start_time": rng.choice([0.0, 0.5, -1.0, 0.25, 1.5])}
+    key, values, mode, nd, start = case["key"], case["values"], case["mode"], case["non_destructive"], case["start_time"]
+    pipe_groups = {"photon_collection": [{"name": "p", "func": "obsprobes.stamp", "arguments": {"slot": 0, "a": 1}}],
+                   "readout_electronics": [{"name": "clk", "func": "obsprobes.clock", "arguments": {"slot": 1}}]}
 
     def make():
-        ro = Readout(times=[1.0, 2.0, 3.0], start_time=0.0, non_destructive=nd)
+        ro = Readout(times=[1.0, 2.0, 3.0] if start < 1.0 else [2.0, 3.0], start_time=start, non_destructive=nd)
         obs = Observation(parameters=[ParameterValues(key="pipeline.photon_collection.p.arguments.a", values=[10, 20]),
                                       ParameterValues(key=key, values=list(values))],
                           readout=ro, mode=mode, with_dask=parallel)
@@ -621,16 +637,17 @@ def check_readout_sweep(ck, rng, parallel):
     before = snapshot(user_readout=public_props(ro0), **mode_settings(obs0))
     ro, obs = make()
     det = pyx.make_detector("CCD", 3, 4)
-    pipe = pyx.make_pipeline({"photon_collection": [{"name": "p", "func": "obsprobes.stamp", "arguments": {"slot": 0, "a": 1}}]})
+    pipe = pyx.make_pipeline(pipe_groups)
     tmp = tempfile.mkdtemp(prefix="verif-c06-ro-")
     cwd = os.getcwd()
     outcome = "ok"
+    px = None
     try:
         os.chdir(tmp)
         try:
             with dask.config.set(scheduler="synchronous"):
                 dt = pyxel.run_mode(mode=obs, detector=det, pipeline=pipe, with_inherited_coords=True)
-                c05.find_bucket(dt)["pixel"].compute()
+                px = c05.find_bucket(dt)["pixel"].compute()
         except common.InfraError:
             raise
         except Exception as e:  # noqa: BLE001
@@ -646,6 +663,26 @@ def check_readout_sweep(ck, rng, parallel):
         ck.violation(f"C06:readout-changed-by-sweep:{'dask' if parallel else 'seq'}",
                      f"after an observation sweeping {key} the Readout / Observation the user passed changed: {changed}",
                      {"readout_sweep": case, "parallel": parallel, "changed": changed})
+        return
+    # dask path, product mode, swept readout time: every (time, a) combination against the standalone exposure
+    if parallel and outcome == "ok" and key.endswith(".times") and mode == "product" and px is not None \
+            and {"time", "a"} <= set(px.dims):
+        ck.count("readout-sweep:times:dask:compared-with-standalone")
+        for t in values:
+            for a in (10, 20):
+                groups = json.loads(json.dumps(pipe_groups))
+                groups["photon_collection"][0]["arguments"]["a"] = a
+                ex = pyxel.run_mode(Exposure(readout=Readout(times=[t], start_time=start, non_destructive=nd)),
+                                    pyx.make_detector("CCD", 3, 4), pyx.make_pipeline(groups))
+                want = [c05.num(x) for x in np.asarray(c05.find_bucket(ex)["pixel"].values).reshape(-1)[:2]]
+                got = [c05.num(x) for x in np.asarray(px.sel(time=t, a=a).values).reshape(-1)[:2]]
+                if got != want:
+                    ck.violation("C06:run-differs-from-standalone:readout-times-sweep:dask",
+                                 f"readout time {t} (start time {start}), a={a}: the run's (fingerprint, 1000·time_step + time) = "
+                                 f"{[c05._decanon({'f': g}) for g in got]}, a standalone exposure read out at that time gives "  # noqa: SLF001
+                                 f"{[c05._decanon({'f': w}) for w in want]}",
+                                 {"readout_sweep": case, "parallel": parallel})
+                    return
 
 
 def check_failing(ck, case, rng, parallel):
@@ -697,7 +734,7 @@ def check_lazy_edit(ck, case, rng):
     cwd = os.getcwd()
     try:
         os.chdir(tmp)
-        obs = c05.build_observation(case, tmp, with_dask=True)
+        obs = c05.build_observation(case, tmp, with_dask=True, pipeline_seed=case.get("pipeline_seed"))
         try:
             dt = pyxel.run_mode(mode=obs, detector=det, pipeline=pipe, with_inherited_coords=True)
             # the edit: other configured values for the model arguments and the detector fields
@@ -931,11 +968,11 @@ def body(ck: common.Check):
     batch, judges = [], []
     cases = []
     for n, mode in enumerate(("product", "sequential", "sequential", "custom")):
-        c = gen_case(rng, mode=mode, sweep_bag=True if n == 1 else (False if n == 2 else None))
+        c = gen_case(rng, mode=mode, sweep_bag=True if n == 1 else (False if n == 2 else None), seeded=(n in (0, 2)))
         for _ in range(30):  # sequential mode: the configured values of the *other* swept parameters matter
             if mode != "sequential" or sum(p["enabled"] for p in c["params"]) >= 2:
                 break
-            c = gen_case(rng, mode=mode, sweep_bag=True if n == 1 else False)
+            c = gen_case(rng, mode=mode, sweep_bag=True if n == 1 else False, seeded=(n in (0, 2)))
         cases.append(c)
     for _ in range(4 if quick else 180):
         cases.append(gen_case(rng))
@@ -956,7 +993,11 @@ def body(ck: common.Check):
             ck.count(f"stateful={k}")
     for case in cases[:3] if quick else cases[:40]:
         check_lazy_edit(ck, case, rng)
-    for i in range(6 if quick else 40):
+    # directed: dask path, swept readout time, start time ≠ 0 (positive and negative), both readout modes
+    for start, nd in ((0.5, False), (-1.0, True)):
+        check_readout_sweep(ck, rng, True, case={"key": "observation.readout.times", "values": rng.choice([[2.0, 5.0], [4.0, 6.5, 9.0]]),
+                                                 "mode": "product", "non_destructive": nd, "start_time": start})
+    for i in range(4 if quick else 40):
         check_readout_sweep(ck, rng, parallel=bool(i % 2))
     for i in range(2 if quick else 16):
         check_load_image(ck, rng, parallel=bool(i % 2))
@@ -1002,18 +1043,8 @@ def replay(path):
         ck = common.Check("C06", "quick")
         rs = r["readout_sweep"]
 
-        class _R:  # replays the recorded choice
-            def __init__(self):
-                self.n = 0
-
-            def choice(self, seq):
-                self.n += 1
-                return (rs["key"], rs["values"]) if self.n == 1 else rs["mode"]
-
-            def random(self):
-                return 0.0 if rs["non_destructive"] else 1.0
-
-        check_readout_sweep(ck, _R(), r.get("parallel", False))
+        rs.setdefault("start_time", 0.0)
+        check_readout_sweep(ck, None, r.get("parallel", False), case=rs)
         print("REPRODUCED: " + ck.violations[0]["what"] if ck.violations else "not reproduced (property holds on this input)")
         return 1 if ck.violations else 0
     case = r.get("case")
